@@ -205,16 +205,127 @@ def _exit_from_locals(a, r):
     return Exit(r, it[2], it[1], fe[2], rb[0], rb[1], fb[0], fb[1], st.deref(loc["root_bounded"]), a._ghost.get("inv1.exit") == "break", _F)
 
 
+# ---------------------------------------------------------------------------------------------- executable twin: the real function on concrete functions
+DEFAULTS = {"hard_bounds": (-float("inf"), float("inf")), "max_iterations": 100, "aitken_acceleration": True, "atol": 1e-4, "rtol": 1e-4,
+            "numerical_stepsize": 1e-4, "verbose": False, "error_on_max_iter": True, "relative_stepsize": False, "name": "", "under_relaxation": 0.9}
+ORDER = ["hard_bounds", "max_iterations", "aitken_acceleration", "atol", "rtol", "numerical_stepsize", "verbose", "error_on_max_iter",
+         "relative_stepsize", "name", "under_relaxation"]
+
+
+def _args_ns(kwargs):
+    return {**DEFAULTS, **kwargs}
+
+
+class _NativeRun:
+    def __init__(self, exit_record, compiled):
+        self.exit, self.compiled = exit_record, compiled
+
+    def __repr__(self):
+        x = self.exit
+        return (f"compiled={self.compiled!r} python={x.last!r} previous={x.previous!r} bracket=({x.b_lo!r}, {x.b_hi!r}) bracketed={x.bracketed} "
+                f"converged={x.converged}")
+
+
+_JIT = {}
+
+
+def _test_function():
+    """one jitted family (a single compilation of the solver): kind 0: x^2 - c, 1: exp(x) - c, 2: cos(x) - c x, 3: x + c"""
+    if "f" not in _JIT:
+        import numba
+        import numpy as np
+
+        def f(x, kind, c):
+            if kind == 0:
+                return x * x - c
+            elif kind == 1:
+                return np.exp(x) - c
+            elif kind == 2:
+                return np.cos(x) - c * x
+            return x + c
+        _JIT["py"], _JIT["f"] = f, numba.njit(f)
+    return _JIT["py"], _JIT["f"]
+
+
+def _native_call(kwargs, inst):
+    """the compiled solver on a jitted test function (the returned value), and the same source run as python (`py_func`) under a tracer that reads the
+    function's locals at its return (previous iterate, bracket, flag, which `return` was taken): the exit record the clauses are evaluated on"""
+    import sys
+    import inspect
+    from ocean_science_utilities.wavephysics.balance.solvers import numba_newton_raphson as solver
+    kw = _args_ns(kwargs)
+    pyf, jf = _test_function()
+    fa = tuple(kw["function_arguments"])
+    pos = [tuple(float(b) for b in kw["hard_bounds"])] + [kw[k] for k in ORDER[1:]]
+    compiled = solver(jf, float(kw["guess"]), fa, *pos)
+    code = solver.py_func.__code__
+    lines, first = inspect.getsourcelines(solver.py_func)
+    last_line = first + len(lines) - 1
+    while not lines[last_line - first].strip():
+        last_line -= 1
+    box = {}
+
+    def tracer(frame, event, arg):
+        if frame.f_code is not code:
+            return None
+
+        def local(fr, ev, ar):
+            if ev == "return" and ar is not None:
+                box["locals"], box["line"] = dict(fr.f_locals), fr.f_lineno
+            return local
+        return local
+    old = sys.gettrace()
+    sys.settrace(tracer)
+    try:
+        solver.py_func(pyf, float(kw["guess"]), fa, *pos)
+    finally:
+        sys.settrace(old)
+    loc = box["locals"]
+    it, fe, rb, fb = loc["iterates"], loc["func_evals"], loc["root_bounds"], loc["func_at_bounds"]
+    x = Exit(float(compiled), it[2], it[1], fe[2], rb[0], rb[1], fb[0], fb[1], bool(loc["root_bounded"]), box["line"] == last_line,
+             lambda v: pyf(v, *fa))
+    return _NativeRun(x, float(compiled))
+
+
+def _clause(fn):
+    def clause(a, r):
+        if isinstance(r, _NativeRun):
+            return fn(NS(_args_ns(a.__dict__)), r.exit)
+        return fn(a, _exit_from_locals(a, r))
+    return clause
+
+
+def _witnesses():
+    inf = float("inf")
+    g = lambda kind, c, guess, **kw: {"function": None, "guess": guess, "function_arguments": (kind, float(c)), **kw}
+    return [("both,plain", g(0, 2.0, 1.0, hard_bounds=(0.0, 3.0), aitken_acceleration=False)),
+            ("lower,aitken", g(1, 3.0, 0.5, hard_bounds=(0.0, inf))),
+            ("both,plain", g(3, 25.0, -18.0, hard_bounds=(-20.0, 0.0), aitken_acceleration=False)),     # root -25 outside the hard bounds, inside the initial bracket
+            ("unbounded,plain", g(2, 1.0, 1.0, aitken_acceleration=False)),
+            ("unbounded,aitken", g(2, 1.0, 3.0)),
+            ("lower,plain", g(0, 2.0, 50.0, hard_bounds=(0.0, inf), aitken_acceleration=False, max_iterations=3, error_on_max_iter=False)),
+            ("lower,plain", g(0, 2.0, 50.0, hard_bounds=(0.0, inf), aitken_acceleration=False, max_iterations=3)),                  # ValueError
+            ("both,plain", g(0, 2.0, 1.0, hard_bounds=(0.0, 3.0), aitken_acceleration=False, max_iterations=1, error_on_max_iter=False)),
+            ("both,plain", g(1, 1e-3, -12.0, hard_bounds=(-20.0, 0.0), aitken_acceleration=False, atol=1e-6, rtol=1e-6)),
+            ("upper,plain", g(3, 4.0, -1.0, hard_bounds=(-inf, -2.0), aitken_acceleration=False))]
+
+
+N_WITNESSES = 10
+
+
 def solver_contract(instances=None, label=None):
     """the exit contract for the named instances (default: the whole family); C11 verifies the family, C10 re-verifies the instance its call uses"""
     inst = [x for x in SOLVER_INST if instances is None or x[0] in instances]
+    names = {x[0] for x in inst}
     c = Contract(
         TARGET, instances=inst,
         requires=REQUIRES,
-        ensures=[(lab, (lambda fn: lambda a, r: fn(a, _exit_from_locals(a, r)))(fn)) for lab, fn in EXIT_CLAUSES],
+        ensures=[(lab, _clause(fn)) for lab, fn in EXIT_CLAUSES],
         raises={"ValueError": lambda a: True},
         options={"loop_invariants": {lab: {1: SOLVER_LOOP} for lab, _ in inst},
-                 "feasibility": "abstract", "max_paths": 6000, "merge_ifs": True, "expose_locals": True},
+                 "feasibility": "abstract", "max_paths": 6000, "merge_ifs": True, "expose_locals": True,
+                 "native_call": _native_call, "args_ns": _args_ns},
+        witness=[(lambda k=k: _witnesses()[k]) for k in range(N_WITNESSES) if _witnesses()[k][0] in names],
         **({"label": label} if label else {}),
     )
     c.loops = {1: SOLVER_LOOP}
